@@ -86,7 +86,7 @@ Bound == nb <= 5
 (* every step of the mechanism is a step the contract allows *)
 ContractStep ==
     \/ \E b \in DOMAIN live' \ DOMAIN live :
-          LET r == live'[b] IN AllocOk(b, r.req, r.len, r.align, 0, r.lo, r.hi, Some(<<0, Arena>>), Some(Arena))
+          LET r == live'[b] IN AllocOk(b, r.req, r.len, r.align, 0, r.lo, r.hi, Some(<<0, Arena>>), Some(Arena), Some(Arena))
     \/ \E b \in DOMAIN live : Free(b, TRUE)
     \/ AllocErr
 Refines == [][ContractStep]_<<live, pend>>
